@@ -324,3 +324,41 @@ func InterlockModels() []Tagged {
 	}
 	return out
 }
+
+// SameTargetModels: one operator reaches the same relation node by a rewrite (or TTU) edge and by a direct
+// userset edge, in both operand orders (the second order is not DSL-expressible), with and without conditions.
+func SameTargetModels() []Tagged {
+	var out []Tagged
+	u := ref.Restriction{Type: "user"}
+	lists := map[string][]ref.Restriction{
+		"[user,doc#b]":        {u, {Type: "doc", Relation: "b"}},
+		"[doc#b]":             {{Type: "doc", Relation: "b"}},
+		"[doc#b with k,user]": {{Type: "doc", Relation: "b", Condition: "k"}, u},
+		"[doc#b,doc#b with k]": {{Type: "doc", Relation: "b"}, {Type: "doc", Relation: "b", Condition: "k"}},
+	}
+	order := []string{"[user,doc#b]", "[doc#b]", "[doc#b with k,user]", "[doc#b,doc#b with k]"}
+	others := []struct {
+		tag string
+		rw  *ref.Rewrite
+	}{{"b", ref.C("b")}, {"b from p", ref.TT("b", "p")}}
+	for _, ln := range order {
+		for _, o := range others {
+			for _, k := range []ref.Kind{ref.Union, ref.Inter, ref.Diff} {
+				for _, thisFirst := range []bool{true, false} {
+					ch := []*ref.Rewrite{ref.T(), o.rw}
+					tag := "THIS " + map[ref.Kind]string{ref.Union: "or", ref.Inter: "and", ref.Diff: "but not"}[k] + " " + o.tag
+					if !thisFirst {
+						ch = []*ref.Rewrite{o.rw, ref.T()}
+						tag = o.tag + " " + map[ref.Kind]string{ref.Union: "or", ref.Inter: "and", ref.Diff: "but not"}[k] + " THIS"
+					}
+					m := GraphModel(map[string]RelSpec{
+						"a": {&ref.Rewrite{Kind: k, Ch: ch}, lists[ln], ""},
+						"b": {ref.T(), []ref.Restriction{u}, ""},
+					}, "p:[doc]")
+					out = append(out, Tagged{Tag: "same-target: a: " + tag + " with " + ln + " | b: [user]", M: m})
+				}
+			}
+		}
+	}
+	return out
+}
